@@ -2,18 +2,24 @@
 
   C03.R1  worklist closure of the 'something else' searches: nothing outside the subject's subtree / the excluded objects is examined
   C03.R2  every pair that reaches a RuleViolations bucket is in user (subject, object) order, for import and for be-imported-by rules
-  C03.R3  nothing dropped: every bucket is rendered, every pair gets a line, a line is the full text (subject, verb, object)
+  C03.R3  nothing dropped: the module-rule detector forwards every pair of the query results, every bucket is rendered, every pair
+          gets a line, a line is the full text (subject, verb, object)
   C03.R4  missing-import lines list, for one subject, all objects grouped under it - and only objects that were paired with it
   C03.R5  the query result stored for one key depends on that key only (no state shared between the searches of one batch)
   C03.R6  everything a match() derives from the evaluable is recomputed in that call before it is used (no stale module lists)
 
-R2, R3 and R4 are decided by abstract interpretation (rules/c03_absint.py) of the two public pipelines
+R2 - R6 are decided by abstract interpretation (rules/c03_absint.py) of public entry points on every concrete class
 
-    RuleViolationBaseDetector.<method returning RuleViolations>(explicit, other)   on every concrete detector class
-    RuleViolationMessageBaseGenerator.<public methods taking RuleViolations>(...)  on every concrete generator class
+    RuleViolationBaseDetector.<public method returning RuleViolations>(explicit, other)         R2, R3 (detector part)
+    RuleViolationMessageBaseGenerator.<public methods turning RuleViolations into text>(...)    R3, R4
+    EvaluableArchitecture.<queries returning a dict> on the implementing class                  R5
+    RuleMatcher.<public method taking an EvaluableArchitecture>, applied twice to one matcher   R6
 
 with abstract inputs built from the parameter annotations, once for import rules and once for be-imported-by rules.  Private helper
-names, the number of helpers, loops vs comprehensions, callbacks, early returns and local variable names play no role.
+names, the number of helpers, loops vs comprehensions, callbacks, early returns and local variable names play no role.  A construct the
+interpreter does not model yields `undecided` (exit 2), never a pass and never a VIOLATION; VIOLATIONs rest on positive evidence
+(a pair with exchanged roles, a data-dependent condition / slice / early exit on the way, subject and object content of different
+pairs combined, a field left over from the first application being read).
 """
 
 from __future__ import annotations
@@ -28,10 +34,14 @@ from core.types import NONE, members
 from . import search as S
 from .c03_absint import Const, E, Interp, Opaque, Ref, Sc, Top, Tup, V
 from .common import guard_formula, stmt_of, types_of, where
-from .tables import DETECTOR, MATCHER, MODREQ, SEARCHES, VIOLATIONS
-
-MSG = "pytestarch.rule_assessment.error_message.message_generator"
-EVAL_ARCH = "pytestarch.eval_structure.evaluable_architecture"
+# anchors: modules and classes that other modules of pytestarch import by these names (nothing private)
+DETECTOR = "pytestarch.rule_assessment.rule_check.rule_violation_detector"  # RuleViolationBaseDetector
+MATCHER = "pytestarch.rule_assessment.rule_check.rule_matcher"  # RuleMatcher
+MODREQ = "pytestarch.rule_assessment.rule_check.module_requirement"  # ModuleRequirement
+VIOLATIONS = "pytestarch.rule_assessment.rule_check.rule_violations"  # RuleViolations
+SEARCHES = "pytestarch.eval_structure.breadth_first_searches"  # the public graph searches
+MSG = "pytestarch.rule_assessment.error_message.message_generator"  # RuleViolationMessageBaseGenerator
+EVAL_ARCH = "pytestarch.eval_structure.evaluable_architecture"  # EvaluableArchitecture (protocol), type aliases of the query results
 BOOL = ("b", "bool", ())
 ROLE_S = frozenset({"S"})
 ROLE_O = frozenset({"O"})
@@ -638,9 +648,11 @@ def run(repo: Repo) -> Result:
         "Decides necessary conditions of exact reports: (R1) the 'something else' searches never expand a module outside the subject's "
         "subtree and the excluded objects, so no import unrelated to the subject can be recorded; (R2) abstract interpretation of every concrete "
         "violation detector, for import and be-imported-by rules: every pair stored in a RuleViolations bucket is (rule subject, rule object); "
-        "(R3) abstract interpretation of every concrete message generator: pairs of every bucket reach the report, no early exit / slice / filter / "
-        "data-dependent condition drops a pair, a line is formatted from subject, verb and object; (R4) the objects listed on a missing-import "
-        "line are all objects grouped under its subject and only objects paired with it."
+        "(R3) the module-rule detector drops no pair of the query results; abstract interpretation of every concrete message generator: pairs of every "
+        "bucket reach the report, no early exit / slice / filter / data-dependent condition drops a pair, a line is formatted from subject, verb and object; "
+        "(R4) the objects listed on a missing-import line are all objects grouped under its subject and only objects paired with it; (R5) each of the "
+        "three graph queries runs one search per element of the complete key set, hands it only the graph, that key and the whole opposite set, and stores "
+        "the result under that key; (R6) a matcher applied a second time reads nothing the first application derived from its evaluable."
     )
     res.not_decided = "equality of the rendered set with a reference violating set on every graph (needs the values the searches compute)."
     res.trusted_base = ["engine search model (rules/search.py)", "abstract interpreter rules/c03_absint.py (joins over-approximate; unknown constructs give 'undecided', never a pass)", "guard implication"]
